@@ -46,6 +46,12 @@ def cases(tier, seed):
         for via in ("disk", "virtual"):
             for sizes in ([3], [1, 2]):
                 yield {"k": "fill", "sizes": sizes, "exact": False, "fill": "default", "via": via, "ext": ext}
+    # file_util --to_dsk --append onto a disk with F free granules: a batch that fits is stored; a batch of which a LATER file does
+    # not fit is refused as a whole - the host image stays as it was
+    for skind in ("cas", "dsk"):
+        for free_g in (1, 2, 3, 4):
+            for sizes in ([1], [1, 1], [1, 2], [2, 1], [1, 1, 2], [3], [1, 3]):
+                yield {"k": "xfer", "skind": skind, "free": free_g, "sizes": sizes}
     # synthetic configurations
     places = {"lowest": lambda f: list(range(f)), "highest": lambda f: list(range(68 - f, 68)),
               "around27": lambda f: sorted(range(68), key=lambda g: (abs(g - 27), g))[:f],
@@ -160,6 +166,26 @@ def check_case(case):
                         ok = step_check(before_bytes or blank, after_bytes, s, cell, None, bad)
                         new = after_bytes
                 steps += 1
+                if raised is not None and not viol and case["via"] == "disk":
+                    # a refusal must be clean on the SAME object: nothing of the refused file stays behind, and a file that
+                    # still fits is stored afterwards
+                    left = bytes(df.get_buffer())
+                    if left != cur:
+                        probs = dskfs.fsck(left)
+                        bad(cell, "image changed by a refused addition", "byte-identical", probs[0][1] if probs else "bytes differ")
+                    else:
+                        for kind, n in (("ML", 2304 - 10 - 7), ("ASC", 0)):
+                            s2 = c07.fspec(kind, n, "AFTER", "BIN" if kind == "ML" else "TXT")
+                            raised2 = None
+                            try:
+                                df.add_file(C.to_coco(s2))
+                                new2 = bytes(df.get_buffer())
+                            except Exception as e:
+                                raised2, new2 = repr(e)[:100], None
+                            step_check(left, new2, s2, cell + "|after-refusal", raised2, bad)
+                            steps += 1
+                            if raised2 is None:
+                                left = new2
                 if raised is not None or viol:
                     break
                 stored += 1
@@ -174,6 +200,50 @@ def check_case(case):
             if td:
                 shutil.rmtree(td, ignore_errors=True)
         res["state"] = "fill:{}:{}".format(cell, stored)
+    elif case["k"] == "xfer":
+        from .. import cli
+        from ..ref import tape
+        cell = "xfer|{}>dsk|free={}|{}".format(case["skind"], case["free"], "+".join(map(str, case["sizes"])))
+        td = common.mkdtemp(prefix="c15x_")
+        try:
+            used = list(range(68 - case["free"]))
+            host = dskfs.write([{"name": "OWNER", "ext": "BIN", "type": 1, "dtype": 0xFF, "stream": bytes((len(used) - 1) * 2304 + 5), "chain": used, "slot": 0}])
+            tgt = os.path.join(td, "host.dsk")
+            open(tgt, "wb").write(host)
+            specs = [c07.fspec("ML", k * 2304 - 10 - 9, "N{}".format(i), pat="ramp7") for i, k in enumerate(case["sizes"])]
+            src = os.path.join(td, "src." + case["skind"])
+            if case["skind"] == "cas":
+                open(src, "wb").write(tape.write([dict(name=x["name"], type=2, dtype=0, load=x["load"], exec=x["exec"], data=C.pattern(x["n"], x["pat"])) for x in specs]))
+            else:
+                g, fl = 0, []
+                for x in specs:
+                    need = (x["n"] + 10) // 2304 + 1
+                    fl.append({"name": x["name"], "ext": "BIN", "type": 2, "dtype": 0, "chain": list(range(g, g + need)),
+                               "stream": dskfs.make_stream("ml", C.pattern(x["n"], x["pat"]), x["load"], x["exec"])})
+                    g += need
+                open(src, "wb").write(dskfs.write(fl))
+            status, out = cli.file_util(src, to_dsk=tgt, append=True)
+            after = open(tgt, "rb").read()
+            fits = sum(case["sizes"]) <= case["free"]
+            steps = 1
+            if fits:
+                if status != 0:
+                    bad(cell, "a batch that fits was refused", "stored", "{} {}".format(status, out[-100:]))
+                else:
+                    names = [e["name"].rstrip() for e in dskfs.entries(after)]
+                    if names != [b"OWNER"] + [x["name"].encode() for x in specs] or dskfs.fsck(after):
+                        bad(cell, "the batch is not on the host image", [x["name"] for x in specs], str(names)[:100])
+                    elif len(dskfs.free_granules(after)) != case["free"] - sum(case["sizes"]):
+                        bad(cell, "the batch did not take exactly its granules", case["free"] - sum(case["sizes"]), len(dskfs.free_granules(after)))
+            else:
+                if status == 0 or isinstance(status, str):
+                    bad(cell, "a batch that does not fit was not refused", "exit != 0", "{} {}".format(status, out[-80:]))
+                if after != host:
+                    bad(cell, "host image changed by a refused transfer", "byte-identical",
+                        "free granules {} -> {}, entries {}".format(case["free"], len(dskfs.free_granules(after)), len(dskfs.entries(after))))
+        finally:
+            shutil.rmtree(td, ignore_errors=True)
+        res["state"] = "xfer:{}".format(cell)
     else:
         free = set(case["free"])
         used = [g for g in range(68) if g not in free]
@@ -213,7 +283,7 @@ def check_case(case):
 
 def describe(tier):
     return {
-        "alphabet": "fill histories: files of k granules (k=1..34), alternating sizes (k1,k2<=6), exact-multiple stream lengths, names without or with a short extension, under " +
+        "alphabet": "fill histories: files of k granules (k=1..34), alternating sizes (k1,k2<=6), exact-multiple stream lengths, names without or with a short extension, file_util --to_dsk --append batches onto disks with 1-4 free granules (all-or-nothing), after the first refusal the same object must be unchanged and still take a 1-granule and an empty file if they fit, under " +
                     ("all 72" if tier == "thorough" else "10") + " fill orders, via DiskFile.add_file and via VirtualFile append on a host file; synthetic "
                     "images; files of every kind (ML/BASIC/ASCII/DATA: different header and trailer sizes) whose stored stream is k granules +-0,1,2 bytes; synthetic "
                     "images (independent writer) with F free granules for every F in 0..68 at 4 placements and 0/1/2/69/70/71/72 live directory entries",
